@@ -3,6 +3,7 @@ import os
 
 import common
 import corr_expand
+import corr_pq
 import gen_omen
 import gen_rulesets
 
@@ -30,6 +31,13 @@ def cases_for(ctx, focus_limits):
         except Exception as e:
             viol.append({'property': 'C04', 'kind': 'load-raised', 'error': repr(e)[:200], 'witness': {'spec': spec, 'flags': flags}})
             continue
+        # "the terminal groups" are the ruleset's: maximal runs of equal probability of each list file, every value with the file's
+        # probability, the base structures tokenised from grammar.txt - computed from the file text, independently of the loader
+        seen_kinds = set()
+        for v_ in corr_pq.oracle_loaded_vs_files(pcfg, spec, flags) + corr_pq.oracle_structures_vs_files(pcfg, spec, flags):
+            if v_['kind'] not in seen_kinds:
+                seen_kinds.add(v_['kind'])
+                viol.append(dict(v_, property='C04', witness={'spec': spec, 'flags': flags}))
         grid = gen_rulesets.grid_of(pcfg)
         gops = corr_expand.grammar_ops(pcfg, om)
         start = len(ops)
